@@ -25,7 +25,7 @@ for pid in allp:
 na = [{"property_id": pid, "reason": meta["not_applicable"].get(pid, "check not built yet in this round; no claim is made")} for pid in allp if pid not in [c["property_id"] for c in checks]]
 man = {
     "version": 1,
-    "setup_cmd": "cd lean && lake build",
+    "setup_cmd": "cd lean && lake build " + " ".join(sorted(set(t for c in checks for t in [props[c["property_id"]].get("driver", "driver_" + c["property_id"].lower())] + props[c["property_id"]]["modules"]))),
     "hooks": {"guard": "TANSEY_LAB_BATCHIE_VERIF", "enable": "no source hooks are needed: all observation is done from outside (recording proxies substituted by the harness)",
               "baseline_off_cmd": "cd /repo && /venv/bin/python -m pytest -ra -q -p no:cacheprovider --timeout=900 --continue-on-collection-errors",
               "source_commits": meta.get("source_commits", []), "add_only": True},
